@@ -2,7 +2,7 @@
 C18 — from Boolean checks over the generated rows (evaluated by `decide +kernel`) to the quantified
 statements about `Tables.atomSub` / `Tables.listSub` used by the theorems.
 -/
-import EPV.Lemmas.SeqTypeRestr
+import EPV.Lemmas.SeqTypeSound
 namespace EPV.SeqType
 
 /-- `row ⊇ rows[b]` for every `b` in `row`, for every row -/
@@ -33,5 +33,34 @@ theorem refl_of_check (rows : List (List Nat)) (h : reflCheck rows = true) (a : 
 theorem Tables.trans_of_checks (tb : Tables) (h1 : transCheck tb.subRows = true)
     (h2 : transCheck tb.listRows = true) : tb.Trans :=
   ⟨fun a b c => trans_of_check tb.subRows h1 a b c, fun a b c => trans_of_check tb.listRows h2 a b c⟩
+
+/-- `isinstance(v, A)` and `issubclass(A, B)` give `isinstance(v, B)`, for both XSD versions of the parser -/
+def instUpCheck (tb : Tables) : Bool :=
+  [true, false].all fun x => tb.instRows.all fun row => row.all fun a => (tb.subRows.getD a []).all fun b =>
+    (tb.xsd11Only.contains a && !x) || (!(tb.xsd11Only.contains b && !x) && row.contains b)
+
+theorem Tables.instUp_of_check (tb : Tables) (h : instUpCheck tb = true) : tb.InstUp := by
+  constructor
+  intro x c a b h1 h2
+  simp only [instAtomic] at h1 ⊢
+  split at h1
+  · exact absurd h1 (by simp)
+  · rename_i hna
+    simp only [Tables.inst] at h1 ⊢
+    simp only [Tables.atomSub] at h2
+    by_cases hc : c < tb.instRows.length
+    · have hm : tb.instRows.getD c [] ∈ tb.instRows := by
+        rw [List.getD_eq_getElem?_getD, List.getElem?_eq_getElem hc]; exact List.getElem_mem hc
+      simp only [instUpCheck, List.all_eq_true] at h
+      have hx : x ∈ [true, false] := by cases x <;> simp
+      have := h x hx _ hm a (by simpa using h1) b (by simpa using h2)
+      simp only [Bool.or_eq_true, Bool.and_eq_true, Bool.not_eq_true'] at this
+      rcases this with h3 | h3
+      · simp only [Bool.and_eq_true, Bool.not_eq_true'] at hna h3
+        exact absurd h3 (by simpa using hna)
+      · rw [if_neg (by rw [h3.1]; simp)]
+        exact h3.2
+    · rw [List.getD_eq_getElem?_getD, List.getElem?_eq_none (by omega)] at h1
+      simp at h1
 
 end EPV.SeqType
